@@ -73,7 +73,7 @@ theorem good_emit {cfg : Cfg} {s : State} (h : Good cfg s) (e : Ev) : Good cfg (
 theorem good_count {cfg : Cfg} {s : State} (h : Good cfg s) (t : Int) :
     Good cfg (countMsg cfg s t) ∧ Step s (countMsg cfg s t) := by
   unfold countMsg; split
-  · exact ⟨h, Step.refl s⟩
+  · exact good_of_same h rfl rfl rfl rfl
   · exact good_of_same h rfl rfl rfl rfl
 
 /-- a write to a module that is in the table with an open socket never crashes -/
